@@ -306,7 +306,7 @@ struct Engine : public vf::Engine {
         int nOps = (int)w.small(1, acc ? 400 : (dia ? 200 : 120));
         int nSlots = (int)w.range(1, acc ? 48 : 12);
         if (acc && w.chance(1, 6)) nSlots = (int)w.range(100, 250);
-        int longLoc = dia ? (int)w.range(1, 900) : 0;
+        int longLoc = dia ? (w.chance(1, 12) ? (int)w.range(3000, 5000) : (int)w.range(1, 900)) : 0;      // sometimes a location string about as long as the report buffer
         Str longFile; if (dia) { longFile.assign((size_t)longLoc, 'p'); longFile += ".c"; }
         if (oom) {                                         // install a failable allocator for one or all families
             int fams = (int)w.below(4);
@@ -363,7 +363,7 @@ struct Engine : public vf::Engine {
                 else if (x < 82 && !faultFree) { o.kind = H_DESIGNATE_AT; o.a = w.range(1, 4); o.b = (int64_t)w.below(N_SITES); }
                 else if (x < 86) o.kind = H_CHECK_DONE;
                 else if (x < 89) o.kind = H_CLEAR_FAILS;
-                else if (x < 92 && !faultFree) { if (w.chance(1, 2)) { o.kind = H_OOM_COUNTDOWN; o.a = (int64_t)w.below(21); } else o.kind = H_OOM_SET; }
+                else if (x < 92 && !faultFree) { if (w.chance(1, 2)) { o.kind = H_OOM_COUNTDOWN; o.a = (int64_t)w.below(21); if (w.chance(1, 8)) { static const int neg[] = { -1, -2, -3, -10, -1000 }; o.a = neg[w.below(5)]; } } else o.kind = H_OOM_SET; }      // a negative count means: no countdown
                 else if (x < 94) o.kind = H_OOM_CLEAR;
                 else if (x < 97) { o.kind = H_STRDUP; o.a = (int64_t)w.below((uint64_t)nSlots); o.c = w.small(0, 40); o.b = w.chance(1, 2) ? -1 : w.small(0, 50); int s = (int)w.below(N_SITES); o.s = siteFile(s); o.d = (int64_t)siteLine(s); }
                 else { o.kind = H_CALLOC; o.a = (int64_t)w.below((uint64_t)nSlots); o.b = w.small(1, 8); o.c = w.small(1, 8); int s = (int)w.below(N_SITES); o.s = siteFile(s); o.d = (int64_t)siteLine(s); }
